@@ -189,6 +189,90 @@ pub fn pipe_scn(p: Pipe, script: Vec<Emit<i64>>, threaded: bool, unsub: bool, q:
   sc
 }
 
+/// a callback (running on the worker) emits into the subject that feeds observe_on while a
+/// producer thread emits too: the fed-back item goes through the queue like any other
+pub fn feedback_scn(terminal: bool, q: Option<u32>, t: Option<u32>) -> Scn {
+  let name = format!("c09/Subject.observe_on: the callback of n1 calls {} on the subject || P(n1,n2,n3)", if terminal { "complete" } else { "next(10)" });
+  scn(&name, "observe_on", q, t, move || {
+    let rec = Rec::new();
+    let stamps = Stamps::new();
+    let (rec2, st2) = (rec.clone(), stamps.clone());
+    let body: Body = Box::new(move || {
+      let sbj = subjects::Subject::<i64>::new();
+      let o = sbj.observable().observe_on(schedulers::new_thread_scheduler());
+      let (r_n, r_e, r_c) = (rec2.clone(), rec2.clone(), rec2.clone());
+      let (sbj_cb, st_cb) = (sbj.clone(), st2.clone());
+      let _sub = o.subscribe(
+        move |x: i64| {
+          r_n.cb(EvK::Next(x));
+          if x == 1 {
+            st_cb.mark("feedback-start");
+            if terminal {
+              sbj_cb.complete()
+            } else {
+              sbj_cb.next(10)
+            }
+            st_cb.mark("feedback-end");
+          }
+        },
+        move |e| r_e.cb(EvK::Error(err_code(&e))),
+        move || r_c.cb(EvK::Complete),
+      );
+      let (sbj_p, st_p) = (sbj.clone(), st2.clone());
+      let h = another_rxrust::vstd::thread::spawn(move || {
+        for v in [1i64, 2, 3] {
+          st_p.mark(&format!("push-start:{}", v));
+          sbj_p.next(v);
+          st_p.mark(&format!("push-end:{}", v));
+        }
+      });
+      let _ = h.join();
+      // let the worker drain
+      another_rxrust::vstd::thread::sleep(ms(5));
+      _sub.unsubscribe();
+    });
+    let check: Check = Box::new(move |e: &ExecEnd| {
+      let mut v = base_violations(e, &[]);
+      if let Some(o) = rec.overlap() {
+        v.push(viol("two-callbacks-at-once", o));
+      }
+      let got = rec.items();
+      let ev = rec.events();
+      // per-producer order and nothing twice
+      let mine: Vec<i64> = got.iter().cloned().filter(|x| [1, 2, 3].contains(x)).collect();
+      if mine != vec![1, 2, 3][..mine.len().min(3)].to_vec() || mine.len() > 3 {
+        v.push(viol("reordered-or-wrong", format!("got {}", rec.short())));
+      }
+      // FIFO: an event whose emitting call returned before another one's started is delivered first
+      let fs = stamps.get("feedback-start");
+      for x in [2i64, 3] {
+        if let (Some(pe), Some(fs)) = (stamps.get(&format!("push-end:{}", x)), fs) {
+          let px = ev.iter().position(|e| e.k == EvK::Next(x));
+          let pf = ev.iter().position(|e| if terminal { e.k == EvK::Complete } else { e.k == EvK::Next(10) });
+          if pe < fs {
+            match (px, pf) {
+              (Some(a), Some(b)) if a > b => v.push(viol("fed-back-event-overtook-a-queued-one", format!("next({}) had returned before the callback emitted, yet it was delivered later: {}", x, rec.short()))),
+              (None, Some(_)) => v.push(viol("events-lost", format!("next({}) had returned before the callback emitted and was never delivered: {}", x, rec.short()))),
+              _ => {}
+            }
+          }
+        }
+      }
+      if !terminal && fs.is_some() && (got.len() != 4 || !got.contains(&10)) {
+        v.push(viol("events-lost", format!("got {}, want the four items", rec.short())));
+      }
+      let mut tids: Vec<usize> = ev.iter().map(|x| x.tid).collect();
+      tids.sort();
+      tids.dedup();
+      if tids.len() > 1 {
+        v.push(viol("callbacks-on-several-threads", format!("callbacks ran on threads {:?}", tids)));
+      }
+      Verdict { outcome: format!("{} | {}", rec.short(), thread_summary(e)), violations: v }
+    });
+    (body, check)
+  })
+}
+
 pub fn scenarios() -> Vec<Scn> {
   use Emit::*;
   let scripts: Vec<Vec<Emit<i64>>> = vec![vec![C], vec![N(1), C], vec![N(1), N(2), C], vec![N(1), E(7)], vec![N(1), N(2)]];
@@ -216,5 +300,7 @@ pub fn scenarios() -> Vec<Scn> {
     v.push(twice_scn(p, vec![N(1), N(2), C], false, Some(1), Some(2)));
     v.push(twice_scn(p, vec![N(1), E(7)], true, None, Some(2)));
   }
+  v.push(feedback_scn(false, Some(2), Some(3)));
+  v.push(feedback_scn(true, Some(2), Some(3)));
   v
 }
